@@ -131,7 +131,13 @@ def lemma_path(I, lm, params, clauses):
                 measure0 = I.int_term(I.eval(call.args[0]))
                 I.lemma_measure = (lm.name, measure0, [nm for nm, _ in params], call.args[0])
             elif kind in ('use', 'unfold'):
-                if kind == 'use' and measure0 is not None:
+                skip = False
+                for kw in call.keywords:
+                    if kw.arg == 'when':
+                        c = I.bool_term(I.eval(kw.value))
+                        c = z3.BoolVal(c) if isinstance(c, bool) else c
+                        skip = I.entails(z3.Not(c))
+                if kind == 'use' and measure0 is not None and not skip:
                     check_recursive_use(I, lm, call, params, measure0)
                 I.eval(call)
             elif kind == 'ensures':
